@@ -103,10 +103,13 @@ class Layout:
         # attachment passes: listeners named in `late` are attached with add_listener after construction (one call
         # per inner list); `prov` keeps the constructor's providers only, `prov_pass[k]` those of late pass k
         self.late = [list(ps) for ps in scn.get("late", [])]
-        late_set = {p for ps in self.late for p in ps}
+        self.ctor_also = set(scn.get("ctor_also", []))       # … and was a constructor listener as well
+        late_set = {p for ps in self.late for p in ps} - self.ctor_also
         self.prov_all = {n: list(v) for n, v in self.prov.items()}
         self.prov = {n: [sid for sid in v if self.slots[sid][0] not in late_set] for n, v in self.prov_all.items()}
-        self.prov_pass = [{n: [sid for sid in v if self.slots[sid][0] in ps] for n, v in self.prov_all.items()}
+        # (inside a pass the providers come in the order they were given to `add_listener`)
+        self.prov_pass = [{n: sorted((sid for sid in v if self.slots[sid][0] in ps), key=lambda sid, ps=ps: ps.index(self.slots[sid][0]))
+                           for n, v in self.prov_all.items()}
                           for ps in self.late]
         # slots whose reads the implementation cannot report
         self.silent = {i for i, (p, n, k) in enumerate(self.slots) if p == "machine" and k == "attr"}
@@ -215,7 +218,7 @@ def build_machine(scn, lay):
             return None
         ns["on_enter_b"] = on_enter_b
     cls = type(StateMachine)("M", (StateMachine,), ns)
-    late_set = {p for ps in lay.late for p in ps}
+    late_set = {p for ps in lay.late for p in ps} - lay.ctor_also
     listeners = [objs[p] for p in ("L0", "L1") if p not in late_set]
     sm = cls(objs["model"], listeners=listeners)
     for ps in lay.late:
@@ -360,7 +363,9 @@ def spec_expectation(scn, lay):
         else:
             if any(not lay.prov.get(n) for n in G.names_of(node)) and verdict == "ok":
                 verdict = "InvalidDefinition"
-            codes.append((compile(en["canon"].strip(), "<guard>", "eval"), en["group"] == "cond", set(G.names_of(node))))
+            import ast as _ast
+            codes.append((compile(en["canon"].strip(), "<guard>", "eval"), en["group"] == "cond", set(G.names_of(node)),
+                          _ast.dump(_ast.parse(en["canon"].strip(), mode="eval"))))
     if verdict != "ok":
         return dict(construct=verdict, rounds=[])
     # all cond entries first, then all unless entries (declaration order inside each)
@@ -372,12 +377,22 @@ def spec_expectation(scn, lay):
         # the constructor's providers first; then every late attachment pass: an entry given by name whose names that
         # pass provides must hold over those providers too ("a guard name provided by several objects must hold on
         # all of them", attachment by attachment)
+        # (`CallbacksExecutor.add` ignores an entry whose key — the expression resolved over the providers it was built
+        # with, and the expected value — was seen before: attaching the same providers again adds nothing)
+        def key(c, pv):
+            return (c[3], c[1], tuple((n, tuple(pv.get(n) or ())) for n in sorted(c[2] or ())))
         plan = [(lay.prov, codes)]
+        seen = {key(c, lay.prov) for c in codes if c[2] is not None}
         for pv in lay.prov_pass:
-            plan.append((pv, [c for c in codes if c[2] is not None and all(pv.get(n) for n in c[2])]))
+            cs = []
+            for c in codes:
+                if c[2] is not None and all(pv.get(n) for n in c[2]) and key(c, pv) not in seen:
+                    seen.add(key(c, pv))
+                    cs.append(c)
+            plan.append((pv, cs))
         for pv, cs in plan:
             ns = _Namespace(lay, rho, log, pv)
-            for code, expected, _names in cs:
+            for code, expected, *_rest in cs:
                 try:
                     v = eval(code, {"__builtins__": {}}, ns)
                     ok = bool(v) == expected
